@@ -10,8 +10,9 @@
 
    The model follows the tree after the repairs 0b0f2ab (own raw array views), 0ba8d0b (an empty allele
    string is `.`), a1ba5e6 (a GT series without values: the missing value for every sample), e4c926c
-   (INFO Character: exactly one character, of any encoded length) and a82186d (Samples::series yields
-   exactly n_fmt series).
+   (INFO Character: exactly one character, of any encoded length), a82186d (Samples::series yields
+   exactly n_fmt series) and 30014e8 (try_from_variant_record rejects a record with more samples than the
+   header names, after Record::samples() and before it collects anything: [too_many_samples]).
 
    What is modelled, in the order of the code:
    [dec_frame]      read_record's framing is that of read_record_buf (shared read_site_length /
@@ -550,13 +551,20 @@ Fixpoint lz_columns (v44 : bool) (fk : name -> option fkind) (ns : nat) (nms : l
   | _, _ => ROk []
   end.
 
-(* Record::samples (validate), column_names, then every sample's values *)
-Definition lz_samples (v44 : bool) (strings : smap) (fk : name -> option fkind) (sb ib : list N)
-  : rres (list name * list (list cellv)) :=
+(* Record::samples (validate), then -- since 30014e8 -- try_from_variant_record compares samples.len()
+   with the number of sample names of the header BEFORE it collects anything (InvalidData, as the eager
+   decoder's InvalidSampleCount), then column_names, then every sample's values.  hdr = Some n: the
+   header names n samples; None: the conversion without that check *)
+Definition too_many_samples (hdr : option Z) (nsz : Z) : bool :=
+  match hdr with Some hs => hs <? nsz | None => false end.
+
+Definition lz_samples (v44 : bool) (strings : smap) (fk : name -> option fkind) (hdr : option Z)
+  (sb ib : list N) : rres (list name * list (list cellv)) :=
   rbind (lz_sample_count sb) (fun nsz =>
   rbind (lz_format_count sb) (fun nf =>
   let ns := Z.to_nat nsz in
   if lz_validate ns (Z.to_nat nf) ib then
+    if too_many_samples hdr nsz then RErr else
     match lz_n_series ns (Z.to_nat nf) ib with
     | None => RErr
     | Some ss =>
@@ -593,9 +601,10 @@ Definition trec_norm (v44 : bool) (t : trecord) : trecord :=
 
 (* ------------------------------------------------------------------ the whole *)
 (* read_record followed by RecordBuf::try_from_variant_record.  v44: the header's file format is
-   VCF 4.4 or later.  The header's sample names are not consulted by this path. *)
-Definition lazy_read (v44 : bool) (strings contigs : smap) (ik : name -> option ikind)
-  (fk : name -> option fkind) (bs : list N) : rres trecord :=
+   VCF 4.4 or later.  hdr: the number of sample names of the header (the only thing the path asks the
+   names for), or None for the conversion without the sample-count check. *)
+Definition lazy_read_gen (v44 : bool) (strings contigs : smap) (ik : name -> option ikind)
+  (fk : name -> option fkind) (hdr : option Z) (bs : list N) : rres trecord :=
   match dec_frame bs with
   | None => RErr
   | Some (sb, ib, _) =>
@@ -608,7 +617,7 @@ Definition lazy_read (v44 : bool) (strings contigs : smap) (ik : name -> option 
     rbind (lz_qual sb) (fun qual =>
     rbind (lz_filters strings bd sb) (fun filters =>
     rbind (lz_info strings ik bd sb) (fun info =>
-    rbind (lz_samples v44 strings fk sb ib) (fun kr =>
+    rbind (lz_samples v44 strings fk hdr sb ib) (fun kr =>
     rbind (lz_u16 16 sb) (fun ni =>
     rbind (lz_format_count sb) (fun nf =>
     rbind (lz_sample_count sb) (fun nsz =>
@@ -617,3 +626,15 @@ Definition lazy_read (v44 : bool) (strings contigs : smap) (ik : name -> option 
                         h_n_info := ni; h_n_fmt := nf; h_n_sample := nsz |};
            t_info := info; t_keys := fst kr; t_rows := snd kr |})))))))))))))
   end.
+
+(* THE lazy path of the tree (30014e8): under a header that names hdr_samples samples *)
+Definition lazy_read_hdr (v44 : bool) (strings contigs : smap) (ik : name -> option ikind)
+  (fk : name -> option fkind) (hdr_samples : Z) (bs : list N) : rres trecord :=
+  lazy_read_gen v44 strings contigs ik fk (Some hdr_samples) bs.
+
+(* the same without the sample-count check: what the path returns under any header that names at least
+   n_sample samples ([lazy_read_hdr_enough] in LazyProofs).  Kept with the arity other properties import
+   (C15, C20). *)
+Definition lazy_read (v44 : bool) (strings contigs : smap) (ik : name -> option ikind)
+  (fk : name -> option fkind) (bs : list N) : rres trecord :=
+  lazy_read_gen v44 strings contigs ik fk None bs.
